@@ -26,6 +26,7 @@ type batchIn struct {
 	Only     []int  `json:"only,omitempty"` // minimisation: execute only these scenario indexes
 	LogPath  string `json:"log"`
 	HugeAt   int    `json:"huge_at"` // scenario index of the single huge-count light block (-1: none)
+	FutureAt int    `json:"future_at"` // scenario index of a well-formed block of height 2^63-1 on the block topic (-1: none)
 	VerLimit string `json:"ver_limit"`
 	SkipProbes bool `json:"skip_probes,omitempty"`
 }
@@ -136,6 +137,7 @@ func child(in []byte) (any, error) {
 		return out, nil
 	}
 	run := func(s int) {
+		lateHeights = len(bi.Only) > 0 || s >= bi.N*85/100
 		rng := scenRng(bi.Seed, s)
 		w.scenario(s, rng)
 	}
@@ -153,7 +155,9 @@ func child(in []byte) (any, error) {
 	w.count("pending_light_blocks_at_end", int64(w.n.Bc.PendLen()))
 	w.count("pending_block_requests_at_end", int64(w.n.Bc.ReqLen()))
 	if !bi.SkipProbes {
+		t0 := time.Now()
 		out.Probes = w.probes()
+		w.count("probes_ms", time.Since(t0).Milliseconds())
 	}
 	w.count("hostile_identities", int64(w.nHostile))
 	for k := range w.kinds {
@@ -344,26 +348,44 @@ func topicClass(t string) string {
 }
 
 func (w *world) scenario(s int, rng *lib.Rng) {
+	t0 := time.Now()
+	class := "lt-huge"
+	defer func() { w.count("scenario_ms_"+class, time.Since(t0).Milliseconds()); w.count("scenarios_"+class, 1) }()
 	if s == w.in.HugeAt {
 		w.scenLtHuge(s, rng)
 		return
 	}
+	if s == w.in.FutureAt {
+		class = "block-future-height"
+		b := w.validBlock(w.gen(s), rng, 1)
+		b.Height = 1<<63 - 1
+		w.publish(s, "block/height=2^63-1", p2penv.TopicBlock, p2penv.Snap(b), nil)
+		return
+	}
 	switch k := rng.Intn(100); {
 	case k < 22:
+		class = "stream"
 		w.scenStream(s, rng)
 	case k < 30:
+		class = "download-from-hostile"
 		w.scenDownloadFrom(s, rng)
 	case k < 42:
+		class = "pubsub-bytes"
 		w.scenPubsubBytes(s, rng)
 	case k < 62:
+		class = "pubsub-struct"
 		w.scenPubsubStruct(s, rng)
 	case k < 74:
+		class = "lt-variant"
 		w.scenLtVariant(s, rng)
 	case k < 82:
+		class = "lt-group-tail"
 		w.scenLtGroupTail(s, rng)
 	case k < 94:
+		class = "handler"
 		w.scenHandler(s, rng)
 	default:
+		class = "blockreq-flood"
 		w.scenBlockReqFlood(s, rng)
 	}
 }
@@ -403,6 +425,9 @@ func (w *world) scenDownloadFrom(s int, rng *lib.Rng) {
 		w.count("inject_failed", 1)
 		return
 	}
+	// the node's peer-info loop keeps overwriting what it knows about the hostile peer with the peer's own (hostile)
+	// answers; the download needs an advertised height above the requested range
+	w.n.SetPeerHeight(w.host.ID(), 1<<40)
 	done := make(chan struct{})
 	go func() {
 		w.n.CallHandler(types.EventFetchBlocks, &types.ReqBlocks{Start: start, End: end, Pid: []string{w.host.ID().Pretty()}})
